@@ -15,7 +15,7 @@ import torch
 from . import project
 
 BIG = 1000
-U = {torch.float64: 2.0 ** -53, torch.float32: 2.0 ** -24, torch.complex128: 2.0 ** -53}
+U = {torch.float64: 2.0 ** -53, torch.float32: 2.0 ** -24, torch.complex128: 2.0 ** -53, torch.complex64: 2.0 ** -24}
 
 
 ZERO_L = -(2 ** 30)
@@ -206,6 +206,10 @@ def svd_case(st, opts):
         ph = ph * u.reshape([n if a == ax else 1 for a in range(d)])
     variants.append(("complex", ph, "tt", shape, [], torch.complex128, None))
     variants.append(("float32", superdiag(sig, shape, torch.float32), "tt", shape, [], torch.float32, None))
+    variants.append(("complex64", ph.to(torch.complex64), "tt", shape, [], torch.complex64, None))
+    if d == 2:
+        st3 = [max(10 * n, 10), n]
+        variants.append(("tall-complex64", superdiag(sig, st3).to(torch.complex64) * (0.6 + 0.8j), "tt", st3, [], torch.complex64, None))
     rot = superdiag(sig, shape)
     for ax in range(d):
         rot = torch.movedim(torch.tensordot(rand_orth(n, gen, torch.float64), rot, dims=([1], [ax])), 0, ax)
@@ -235,7 +239,7 @@ def svd_case(st, opts):
             problems.append(P("exception", "raised %s: %s" % (type(ex).__name__, str(ex)[:200])))
             continue
         dense = torch.as_tensor(arr).reshape(wM + wN if kind == "ttm" else wN)
-        if isinstance(X, tt.TT) and dt != torch.float32:
+        if isinstance(X, tt.TT) and dt not in (torch.float32, torch.complex64):
             try:
                 e2 = torch.linalg.norm(project.dense(X.cores).reshape(dense.shape) - dense).item() ** 2
                 traces.append(make_trace("to_tt", len(wN), eps, torch.linalg.norm(dense).item() ** 2, e2, ev, name))
